@@ -111,6 +111,15 @@ def c12_copy(E, edits="inplace"):
     m = base_model(E, sym_coef=(edits == "inplace"))
     m.genes.g1.annotation = {"ncbi": ["1"]}
     m.groups.G1.notes = {"g": 1}
+    # ids are unique per container only: a metabolite named like a reaction and a group named like a gene, both
+    # referenced from groups (legal in cobrapy; a copy must keep the kind of every member)
+    from cobra import Metabolite
+    from cobra.core import Group
+    twin = Metabolite("DM_B", compartment="c")
+    m.add_metabolites([twin])
+    m.groups.G1.add_members([twin])
+    m.add_groups([Group("g2", members=[m.reactions.R2])])
+    m.groups.G1.add_members([m.genes.g2])
     uv = m.problem.Variable("uservar", lb=0, ub=5)
     uc = m.problem.Constraint(m.reactions.R1.flux_expression + uv, lb=0, ub=7, name="usercon")
     m.add_cons_vars([uv, uc])
